@@ -72,7 +72,7 @@ def install_contracts():
 
 def plan(tier, seed):
     n = 14 if tier == "quick" else 46
-    return [{"n": 3000 if tier == "quick" else 12000} for _ in range(n)]
+    return [{"n": 3000 if tier == "quick" else 30000} for _ in range(n)]
 
 
 def build_chain(ops, jsonpath):
